@@ -254,7 +254,7 @@ class TreeRec:
             if exc is not None:
                 ev["exc"] = type(exc).__name__
             ch = parent.get_children() if exc is None else None
-            self.scan(ev, first=tuple(ch) if ch else (), local_parent=parent if len(self.nodes) > self.FULL_SCAN_MAX else None)
+            self.scan(ev, first=tuple(ch) if ch else (), local_parent=parent if len(self.nodes) > self.FULL_SCAN_MAX else None, fields=False)
             self.events.append(ev)
 
     # -- diff -------------------------------------------------------------------
@@ -282,7 +282,7 @@ class TreeRec:
                 add(n)
         return order
 
-    def scan(self, ev, first=(), local_parent=None):
+    def scan(self, ev, first=(), local_parent=None, fields=True):
         """walk everything, add the differences with the last observation to `ev`"""
         anom = []
         new = []
@@ -318,7 +318,7 @@ class TreeRec:
             if m != self.meta[cid]:
                 anom.append(["cell-mutated", cid])
                 self.meta[cid] = m
-            if self.extract:
+            if self.extract and fields:
                 f = self.extract(n)
                 if f != self.fields[cid]:
                     fc.append([cid] + list(f))
